@@ -20,7 +20,7 @@ class _FakeTransport:
         self.wire.append(b[0])
 
     def _unlink_channel(self, chanid):
-        pass
+        self.unlinked = getattr(self, "unlinked", 0) + 1
 
     def get_log_channel(self):
         return "paramiko.transport"
@@ -77,6 +77,9 @@ def _scenario(name, ops, what, allow=1, known=None):
         if what == "once-and-no-commit-after":
             alts.append(s[("wire", "wire", "eof")] > 1)
             alts.append(s[("wire", "wire", "close")] > 1)
+            if "peer_close" in ops:
+                # the peer's CLOSE has been handled and ours has gone out (answered, or sent before): the channel is released
+                alts.append(z3.And(m.all_done(s), s[("wire", "wire", "unlinked")] < 1))
             def tr(x):
                 return x if z3.is_bool(x) else x != 0
             closed_or_eof = z3.Or(tr(s[("fld", "chan", "eof_sent")]), tr(s[("fld", "chan", "closed")]))
@@ -118,7 +121,8 @@ def _scenario(name, ops, what, allow=1, known=None):
         w = real["tr"].wire
         first_end = min([i for i, x in enumerate(w) if x in (EOF, CLOSE)] or [len(w)])
         late = [x for x in w[first_end:] if x in (DATA, XDATA)]
-        v = w.count(EOF) > 1 or w.count(CLOSE) > 1 or bool(late)
+        not_released = "peer_close" in ops and getattr(real["tr"], "unlinked", 0) < 1 and getattr(s, "completed", False)
+        v = w.count(EOF) > 1 or w.count(CLOSE) > 1 or bool(late) or not_released
         return {"wire": str(w), "violated": v, "completed": getattr(s, "completed", None)}
     sc = Scenario("%s:%s" % ("||".join(ops), what), W, threads, bad, 0, params=P, init_extra=init,
                   files=[CH.__file__], make_real=make_real, observe=observe, known=known)
